@@ -258,11 +258,21 @@ def r1(rep, prog):
     mb = get_body(rep, prog, R, MW)
     if mb is not None:
         roots = {}
+        gone_writers = []
         for callee, ai in ((I + "merger::IndexMerger::write_fieldnorms", 2), (I + "merger::IndexMerger::write_postings", 3),
                            (I + "merger::IndexMerger::write_storable_fields", 2), (I + "merger::IndexMerger::write_fast_fields", 2)):
             cs = calls_to(prog, mb, {callee})
+            if callee not in prog.bodies and cs:
+                gone_writers.append((callee.split("::")[-1], cs))      # written into IndexMerger::write (see below)
+                continue
             if rep.check(len(cs) == 1, R, "IndexMerger::write calls %s" % callee.split("::")[-1], "1 call", "expected one call to %s, found %d" % (callee, len(cs)), site=mb.span):
                 roots[callee.split("::")[-1]] = root_of(mb, cs[0][1]["args"][ai])
+        for nm, cs in gone_writers:
+            # the mapping is then an argument of one of the calls the writer made
+            common = set(roots.values())
+            cand = {root_of(mb, a) for _, t in cs for a in t["args"]}
+            if len(common) == 1 and common & cand:
+                roots[nm] = list(common)[0]
         vals = set(roots.values())
         names = mb.var_names()
         one = len(vals) == 1 and len(roots) == 4 and list(vals)[0][0] == "local" and names.get(list(vals)[0][1]) == "doc_id_mapping"
